@@ -200,6 +200,8 @@ PressChar(m, k) ==
       acts == {c \in matching : c.kind = "act"}
       r == IF acts # {} THEN CHOOSE c \in acts : TRUE ELSE CHOOSE c \in matching : TRUE
       amb == Cardinality({c.c : c \in acts}) > 1
+      \* the literal text and an expansion coincide: what zippychord did cannot be told from the text
+      ambLit == acts # {} /\ \E c \in matching : c.kind = "lit"
       share(c) == LET o == OutOf(p, c) IN (m.fa > 0 \/ Len(c) > 1) /\ m.fo # <<>> /\ o # <<>> /\ m.fo[1] = o[1]
       sameHold(c) == m.cn /\ Len(c) > 1
   IN
@@ -211,10 +213,10 @@ PressChar(m, k) ==
   ELSE IF r.kind = "act"
   THEN [m EXCEPT !.exp = r.t, !.el = 0, !.last = "act", !.quiet = 0, !.sp = r.spc,
                  !.ctx = IF HasFollow(p, r.c) THEN r.c ELSE <<>>,
-                 !.ctxSure = ~amb, !.ctxBase = IF HasFollow(p, r.c) THEN r.base ELSE <<>>,
+                 !.ctxSure = ~amb /\ ~ambLit, !.ctxBase = IF HasFollow(p, r.c) THEN r.base ELSE <<>>,
                  !.held = Append([i \in DOMAIN m.held |-> [m.held[i] EXCEPT !.t = IF Len(@) > Len(r.base) THEN r.base ELSE @]],
                                  [k |-> k, t |-> IF OutOf(p, r.c) = <<>> THEN r.pre ELSE r.base]),
-                 !.ph = ph1, !.good = FALSE, !.cn = TRUE,
+                 !.ph = IF ambLit THEN "M" ELSE ph1, !.good = FALSE, !.cn = TRUE,
                  !.fa = OMin(@ + 1, 3), !.fo = OutOf(p, r.c), !.fu = @ \/ isPunct,
                  !.fp = IF @ >= 1 THEN 2 ELSE IF share(r.c) THEN 1 ELSE 0,
                  !.fs = @ \/ (share(r.c) /\ shiftHeld), !.fh = @ \/ sameHold(r.c), !.sa = @ \/ shiftHeld]
@@ -268,10 +270,9 @@ EndChecks(m) ==
   ELSE \* commit: forget the text no later rule can refer to
        LET m0 == [m EXCEPT !.fa = 0, !.fp = 0, !.fs = FALSE, !.fd = FALSE, !.fu = FALSE, !.fc = FALSE, !.fh = FALSE,
                             !.fds = FALSE, !.fo = IF m.ctx = <<>> THEN <<>> ELSE @] IN
-       IF m.sp THEN m0
-       ELSE IF m.ctx = <<>> THEN [m0 EXCEPT !.buf = <<>>, !.exp = <<>>, !.ctxBase = <<>>]
-       ELSE LET n == Len(m.ctxBase) IN
-            [m0 EXCEPT !.buf = SubSeq(@, n + 1, Len(@)), !.exp = SubSeq(@, n + 1, Len(@)), !.ctxBase = <<>>]
+       \* (a pending follow-up context keeps the antecedent's expansion, a pending smart space keeps the space)
+       LET n == IF m.ctx # <<>> THEN Len(m.ctxBase) ELSE IF m.sp THEN OMax(Len(m.exp) - 1, 0) ELSE Len(m.exp) IN
+       [m0 EXCEPT !.buf = SubSeq(@, n + 1, Len(@)), !.exp = SubSeq(@, n + 1, Len(@)), !.ctxBase = <<>>]
 
 MonTick(m, out, idle, cb) ==
   IF m.err # "" THEN m
